@@ -20,7 +20,10 @@ def modelled : List String := [
   "babyjub.PublicKey.VerifyPoseidon",
   "babyjub.<decls>@babyjub.go",
   "babyjub.<decls>@eddsa.go",
-  "babyjub.<decls>@helpers.go"
+  "babyjub.<decls>@helpers.go",
+  "module.<deps>@go.mod",
+  "module.<deps>@go.sum",
+  "module.<deps>@vendor"
 ]
 
 theorem source_pinned : modelled.all (same I3.Gen.fingerprints) = true := by decide +kernel
@@ -28,6 +31,6 @@ theorem source_pinned : modelled.all (same I3.Gen.fingerprints) = true := by dec
 theorem function_set_pinned : (["babyjub."] : List String).all (sameKeys I3.Gen.fingerprints) = true := by
   decide +kernel
 
-theorem modelled_nonempty : 12 = modelled.length := by decide
+theorem modelled_nonempty : 15 = modelled.length := by decide
 
 end I3.Props.C03
